@@ -72,4 +72,24 @@ def runNoHalt (_inp : List String) (out : String) : Option Res :=
   let sc := scanSupply out
   some { agree := true, monitor := !sc.halted && !sc.rejected, nontrivial := decide (sc.blocks ≥ 10), model := "", note := sc.note }
 
+/-- C04: per block — oracle account = Σ unpaid tips of open queries; tips escrow (loya) covers Σ selector credits
+(raw 10^-18 units, slack far below one loya for rounding); bridge account empty -/
+def runEscrow (_inp : List String) (out : String) : Option Res :=
+  let recs := (out.splitOn " ;; ").filter (fun r => r.startsWith "B ")
+  let (ok, paid, note, blocks) := recs.foldl (fun (acc : Bool × Nat × String × Nat) rec =>
+    let (ok, paid, note, blocks) := acc
+    let fs := fieldsOf rec
+    match getF fs "oracle", getF fs "qsum", getF fs "tips", getF fs "tipsum", getF fs "bridge" with
+    | some o, some q, some t, some ts, some b =>
+      let oracleOk := o == q
+      let tI := (parseInt? t).getD 0
+      let tsI := (parseInt? ts).getD 0
+      let escrowOk := decide (tsI ≤ tI * 1000000000000000000 + 1000000)
+      let bridgeOk := b == "0"
+      let good := oracleOk && escrowOk && bridgeOk
+      (ok && good, paid + (if tsI > 0 then 1 else 0),
+       if good || note != "" then note else s!"h={(getF fs "h").getD "?"} oracle={o} qsum={q} tips={t} tipsum={ts} bridge={b}", blocks + 1)
+    | _, _, _, _, _ => (ok, paid, note, blocks)) (true, 0, "", 0)
+  some { agree := true, monitor := ok, nontrivial := decide (paid ≥ 1 ∧ blocks ≥ 10), model := "", note := note }
+
 end Driver
